@@ -54,13 +54,13 @@ var solvers = []solverDef{
 }
 
 type SolveCfg struct {
-	TimeoutS int
-	Dir      string
-	All      bool // run all solvers to completion and compare
-	Workers  int
-	Seed     int
-	IgnoreSat bool // quantified queries: a solver's `sat` is not a verdict (incomplete quantifier reasoning; z3 4.8.12 has answered sat on refutable queries), only a candidate model
-	Short    func(name string) bool // obligations that get a short timeout (open known findings: reported either way)
+	TimeoutS  int
+	Dir       string
+	All       bool // run all solvers to completion and compare
+	Workers   int
+	Seed      int
+	IgnoreSat bool                   // quantified queries: a solver's `sat` is not a verdict (incomplete quantifier reasoning; z3 4.8.12 has answered sat on refutable queries), only a candidate model
+	Short     func(name string) bool // obligations that get a short timeout (open known findings: reported either way)
 }
 
 func runSolver(ctx context.Context, sd solverDef, file string, timeoutS int) (status, out string, secs float64) {
@@ -101,8 +101,8 @@ func (e *Engine) Solve(obls []*Obligation, cfg SolveCfg) {
 	os.RemoveAll(cfg.Dir)
 	os.MkdirAll(cfg.Dir, 0o755)
 	type job struct {
-		o          *Obligation
-		qf, full   string
+		o        *Obligation
+		qf, full string
 	}
 	var jobs []job
 	tPrep := time.Now()
@@ -375,7 +375,6 @@ func firstLines(s string, n int) string {
 	return strings.Join(ls, "\n")
 }
 
-
 // umulZeroFacts instantiates, for every ground product term umul(a, s) of the obligation, the schema
 // (a == 0 || s == 0) ==> umul(a, s) == 0, which is true of 64-bit multiplication.
 func (e *Engine) umulZeroFacts(o *Obligation) []*Term {
@@ -404,7 +403,6 @@ func (e *Engine) umulZeroFacts(o *Obligation) []*Term {
 	}
 	return out
 }
-
 
 // constMulFacts: for ground products x*c and y*c by the same small constant c (element strides), the true facts
 // 0 <= x < y < 2^40 ==> x*c + c <= y*c < 2^60 (no wrap-around below 2^40 elements), so that the solver need not rediscover
